@@ -952,6 +952,141 @@ func c15(c *Ctx) {
 		c.Check(good, "R7", key, at(ix.M, fn.Pos()), itoa(len(sites))+" call site(s); every path of the first Shutdown passes one", "the exporter is not shut down on some path of the component's only effective Shutdown (later calls are no-ops): "+why)
 	}
 
+	// R8 the provider's one effective Shutdown reaches every member: the loops are total
+	c.Rule("R8", "E3 total fan-out", "the provider's only effective Shutdown (later calls are no-ops) shuts down every processor / reader: no iteration of the loop over the members is skipped or cut short — in particular not by a context that is already done (each member honours the context itself)", 4)
+	{
+		type fan struct {
+			ix    *PkgIndex
+			fname string
+			what  string
+			// isCall: the vertex that shuts the member down (may sit in a literal handed to sync.Once.Do)
+			isCall func(info *types.Info, fn *FuncInfo, n ast.Node) bool
+		}
+		containsCallTo := func(info *types.Info, n ast.Node, full string) bool {
+			hit := false
+			ast.Inspect(n, func(m ast.Node) bool {
+				if call, ok := m.(*ast.CallExpr); ok && isCallTo(info, call, full) {
+					hit = true
+				}
+				return true
+			})
+			return hit
+		}
+		rangeValCall := func(info *types.Info, fn *FuncInfo, n ast.Node) bool {
+			// a call of the loop's own range value: for _, f := range funcs { f(ctx) }
+			hit := false
+			inspectNoLit(n, func(m ast.Node) bool {
+				call, ok := m.(*ast.CallExpr)
+				if !ok {
+					return true
+				}
+				if v, isV := objOf(info, call.Fun).(*types.Var); isV {
+					inspectNoLit(fn.Body(), func(r ast.Node) bool {
+						if rs, isR := r.(*ast.RangeStmt); isR && rs.Value != nil && objOf(info, rs.Value) == types.Object(v) {
+							hit = true
+						}
+						return true
+					})
+				}
+				return true
+			})
+			return hit
+		}
+		var fans []fan
+		fans = append(fans,
+			fan{tix, "(*TracerProvider).Shutdown", "every registered span processor", func(info *types.Info, fn *FuncInfo, n ast.Node) bool {
+				return containsCallTo(info, n, "("+sdkTrace+".SpanProcessor).Shutdown")
+			}},
+			fan{lix, "(*LoggerProvider).Shutdown", "every log processor", func(info *types.Info, fn *FuncInfo, n ast.Node) bool {
+				return containsCallTo(info, n, "("+sdkLog+".Processor).Shutdown")
+			}},
+		)
+		for _, fa := range fans {
+			fn := c.Fn(fa.ix, "R8", fa.fname)
+			if fn == nil {
+				continue
+			}
+			info := fa.ix.Pkg.TypesInfo
+			g := fa.ix.FG(fn)
+			var sites []*GNode
+			for _, x := range g.Nodes {
+				if x.N != nil && inLoop(fn, x.N) && fa.isCall(info, fn, x.N) {
+					sites = append(sites, x)
+				}
+			}
+			key := shortPkg(fa.ix.Pkg.PkgPath) + "|" + fa.fname + "|the loop shuts down " + fa.what
+			if len(sites) == 0 {
+				c.Violation("R8", key, at(fa.ix.M, fn.Pos()), "no Shutdown call on the members inside a loop: the members are not shut down by the provider's Shutdown")
+				continue
+			}
+			good, why := true, ""
+			for _, x := range sites {
+				if ok, w := totalFanout(g, x); !ok {
+					good, why = false, w
+				}
+			}
+			c.Check(good, "R8", key, at(fa.ix.M, sites[0].N.Pos()), "every iteration reaches the member's Shutdown and goes on to the next member",
+				"a member is never shut down (the provider's flag is already set, so no later Shutdown gets to it) and keeps exporting: "+why)
+		}
+		// sdk/metric: Shutdown of the provider is unifyShutdown(unify(funcs)) over r.Shutdown of every reader
+		if fn := c.Fn(mix, "R8", "unify"); fn != nil {
+			info := mix.Pkg.TypesInfo
+			var lits []*FuncInfo
+			for _, f := range mix.All {
+				if f.Lit != nil && mix.Outer(f) == fn {
+					lits = append(lits, f)
+				}
+			}
+			cands := append([]*FuncInfo{fn}, lits...)
+			found := false
+			for _, f := range cands {
+				g := mix.FG(f)
+				for _, x := range g.Nodes {
+					if x.N == nil || !inLoop(f, x.N) || !rangeValCall(info, f, x.N) {
+						continue
+					}
+					found = true
+					ok, w := totalFanout(g, x)
+					c.Check(ok, "R8", "sdk/metric|unify|every function of the list is called", at(mix.M, x.N.Pos()), "every reader's ForceFlush / Shutdown runs",
+						"a reader is never shut down (unifyShutdown runs this once) and keeps collecting and exporting: "+w)
+				}
+			}
+			if !found {
+				c.Violation("R8", "sdk/metric|unify|every function of the list is called", at(mix.M, fn.Pos()), "no call of the ranged-over function inside a loop")
+			}
+		}
+		if fn := c.Fn(mix, "R8", "config.readerSignals"); fn != nil {
+			info := mix.Pkg.TypesInfo
+			g := mix.FG(fn)
+			found := false
+			for _, x := range g.Nodes {
+				if x.N == nil || !inLoop(fn, x.N) {
+					continue
+				}
+				isApp := false
+				inspectNoLit(x.N, func(m ast.Node) bool {
+					if call, ok := m.(*ast.CallExpr); ok && builtinName(info, call) == "append" && len(call.Args) == 2 {
+						if sel, ok := unparen(call.Args[1]).(*ast.SelectorExpr); ok && sel.Sel.Name == "Shutdown" {
+							if s := info.Selections[sel]; s != nil && s.Kind() == types.MethodVal {
+								isApp = true
+							}
+						}
+					}
+					return true
+				})
+				if !isApp {
+					continue
+				}
+				found = true
+				ok, w := totalFanout(g, x)
+				c.Check(ok, "R8", "sdk/metric|config.readerSignals|every reader's Shutdown is collected", at(mix.M, x.N.Pos()), "one entry per configured reader", "a configured reader is left out of the provider's Shutdown: "+w)
+			}
+			if !found {
+				c.Violation("R8", "sdk/metric|config.readerSignals|every reader's Shutdown is collected", at(mix.M, fn.Pos()), "the readers' Shutdown methods are not collected in a loop over the configured readers")
+			}
+		}
+	}
+
 	// R5 nil-exporter guards
 	c.Rule("R5", "E3 nil-guard + E4 one-level value flow", "every call through an exporter field that the constructor accepts as nil is dominated by a non-nil test of that value", 8)
 	type nilSpec struct {
